@@ -57,6 +57,16 @@ class Obligation:
         return d
 
 
+def _mentions_unknown(detail):
+    if detail is None:
+        return False
+    try:
+        t = detail if isinstance(detail, str) else json.dumps(detail, default=repr)
+    except Exception:  # noqa
+        t = repr(detail)
+    return "Unknown(" in t
+
+
 class Ctx:
     def __init__(self, prop, tier, seed, repo=None):
         from . import e1_srcmodel
@@ -84,6 +94,11 @@ class Ctx:
         self.obls.append(Obligation(self.rule, instance, self._where(where), "ok", detail, None, nontrivial))
 
     def fail(self, instance, where=None, detail=None, key=None):
+        # framework-wide safety net: a comparison that failed on a value the evaluator could not determine is "not decided", never a violation
+        # (the detail carries the values compared; every evaluator prints an undetermined value as `Unknown(<reason>)`)
+        if key is None and _mentions_unknown(detail):
+            self.obls.append(Obligation(self.rule, instance + " [not decided: a value reaching this comparison is unknown]", self._where(where), "error", detail))
+            return
         self.obls.append(Obligation(self.rule, instance, self._where(where), "fail", detail, key))
 
     def error(self, instance, where=None, detail=None):
